@@ -2,7 +2,7 @@
    what an accepted verdict of [judge_log] says about the observed values.
    Over Z/Q/lists; closed under the global context. *)
 From Coq Require Import Qround Sorted Lqa.
-From MM Require Import Base.Num Base.GBLemmas Model.Ticks Proofs.Ticks Proofs.TicksLog Proofs.TicksLogExp Proofs.TicksLogNice
+From MM Require Import Base.Num Base.GBLemmas Model.Ticks Proofs.Ticks Proofs.TicksNice Proofs.TicksLog Proofs.TicksLogExp Proofs.TicksLogNice
   Check.C17 Proofs.TicksCheck Proofs.CheckBase Proofs.CheckC17Base.
 Local Open Scope Q_scope.
 
@@ -44,8 +44,8 @@ Definition log_levels_A (tolv : Q -> Q) (base : Z) (mn mx : Q) (levels : list le
   negb (Qeqb mn mx) &&
   forallb (fun lv => log_level_exact base (log_e base mn mx) (lf_neg mn mx) (lf_emin mn mx) (lf_emax mn mx) tolv lv ||
                      existsb (log_level_adm1 base (lf_neg mn mx) (lf_emin mn mx) (lf_emax mn mx) tolv lv) (log_adm base mn mx)) levels.
-Definition log_l45 (nomax : Z) (found : bool) (mn mx ao bo : Q) (major3 : list xreal) : bool :=
-  (nomax <? 3)%Z || negb found || log_law45 (lf_neg mn mx) (lf_emin mn mx) (lf_emax mn mx) (lf_emin ao bo) (lf_emax ao bo) major3.
+Definition log_l45 (nomax : Z) (rep : bool) (mn mx ao bo : Q) (major3 : list xreal) : bool :=
+  (nomax <? 3)%Z || negb rep || log_law45 (lf_neg mn mx) (lf_emin mn mx) (lf_emax mn mx) (lf_emin ao bo) (lf_emax ao bo) major3.
 
 (* ---------- what an accepted verdict says, group by group ---------- *)
 Record log_groups (cd : Z) (c : sccase) (ao bo : Q) : Prop := mkLogG {
@@ -67,11 +67,11 @@ Record log_groups (cd : Z) (c : sccase) (ao bo : Q) : Prop := mkLogG {
   gg_bl := negb (log_nice_E lg_tolv gg_no gg_base gg_mn gg_mx (so_nst gg_ob) (XFin ao) (XFin bo))
            || negb (log_ticks_E lg_tolv gg_no gg_base ao bo (so_st3 gg_ob) (so_major3 gg_ob) None)
            || negb (log_nice_E lg_tolv gg_no gg_base ao bo (so_nst2 gg_ob) (so_nmin2 gg_ob) (so_nmax2 gg_ob));
-  gg_found := is_found (log_rn gg_no gg_base gg_mn gg_mx);
+  gg_rep := log_nice_rep_b gg_base (log_e gg_base gg_mn gg_mx) (log_rn gg_no gg_base gg_mn gg_mx);
   gg_40 : lok cd (law40 lg_tolv (o_max gg_no) ao bo (so_nst2 gg_ob) (so_nmin2 gg_ob) (so_nmax2 gg_ob)) gg_bl;
-  gg_41 : lok cd (law41 lg_tolv (o_max gg_no) gg_found ao bo (so_major3 gg_ob)) gg_bl;
+  gg_41 : lok cd (law41 lg_tolv (o_max gg_no) gg_rep ao bo (so_major3 gg_ob)) gg_bl;
   gg_43 : law43 ao bo (so_map0 gg_ob) (so_map1 gg_ob) = true;
-  gg_45 : lok cd (log_l45 (o_max gg_no) gg_found gg_mn gg_mx ao bo (so_major3 gg_ob)) gg_bl }.
+  gg_45 : lok cd (log_l45 (o_max gg_no) gg_rep gg_mn gg_mx ao bo (so_major3 gg_ob)) gg_bl }.
 
 Ltac split_groups H :=
   repeat match type of H with Forall _ (_ :: _) => apply Forall_cons_inv in H; let K := fresh "K" in destruct H as [K H] end.
@@ -95,7 +95,7 @@ Proof.
   exists ao, bo. cbn [fst] in *. rewrite ?grp_ge1 in *.
   constructor; cbv zeta;
     unfold log_l45, log_ticks_E, log_ticks_A, log_nice_E, log_nice_A, log_levels_E, log_levels_A, log_nice_xy, log_rt, log_rn, log_adm, log_e,
-           lf_neg, lf_emin, lf_emax, is_found, law40, law41, law43;
+           lf_neg, lf_emin, lf_emax, law40, law41, law43;
     rewrite ?Ef, ?Ef3; cbn [fst snd]; rewrite ?Exy, ?Exy3; cbn [fst snd].
   - auto.
   - exact Ed.
@@ -276,20 +276,24 @@ Proof.
   - intros Hp Hlt. exact (log_nice_ends_are_powers b mn mx o x y Hp Hlt Exy).
 Qed.
 
-(* a level of the window fits Nice's rounded-out count (which is non-increasing on the window): Nice finds a level *)
-Definition log_nice_fits (b : Z) (o : tickopts) (mn mx : Q) : Prop :=
+(* Nice finds level l - THE lowest level of the window whose rounded-out count (non-increasing on the
+   window) is at most Max - and both candidate ends Base^(f 2^l), Base^(la 2^l) of that level may be
+   moved to (positive finite float64; at a level whose effective base overflows only exponent 0) *)
+Definition log_nice_rep_spec (b : Z) (o : tickopts) (mn mx : Q) : Prop :=
   ~ (mn == mx)%Q /\ exists lo hi l, level_bounds o = Some (lo, hi) /\ 1 <= o_max o /\
-    nonincreasing (log_count (log_e b mn mx) true) lo hi /\ lo <= l <= hi /\ log_count (log_e b mn mx) true l <= o_max o.
-Lemma log_found_of_fits b o mn mx : log_nice_fits b o mn mx -> is_found (log_rn o b mn mx) = true.
+    let e := log_e b mn mx in
+    nonincreasing (log_count e true) lo hi /\ lo <= l <= hi /\ log_count e true l <= o_max o /\
+    (forall l', lo <= l' < l -> o_max o < log_count e true l') /\
+    let f := le_out_lo e / 2 ^ l in let la := cdiv (le_out_hi e) (2 ^ l) in
+    log_end_ok b (2 ^ l) f (qpow b (f * 2 ^ l)) = true /\ log_end_ok b (2 ^ l) la (qpow b (la * 2 ^ l)) = true.
+Lemma log_rep_of_spec b o mn mx : log_nice_rep_spec b o mn mx ->
+  log_nice_rep_b b (log_e b mn mx) (log_rn o b mn mx) = true.
 Proof.
-  intros (Hn & lo & hi & l & Hb & Hm & Mono & Hl & Fit). unfold log_rn.
-  assert (E1 : Qeqb mn mx = false) by (destruct (Qeqb mn mx) eqn:E; [gb_bool; contradiction | reflexivity]).
-  rewrite E1, log_search_eq. destruct (find_level o (log_count (log_e b mn mx) true) 0) as [l'| |] eqn:F; [reflexivity| |].
-  - exfalso. assert (Mono' : forall lo0 hi0, level_bounds o = Some (lo0, hi0) -> nonincreasing (log_count (log_e b mn mx) true) lo0 hi0).
-    { intros lo0 hi0 Hb0. rewrite Hb in Hb0. injection Hb0 as <- <-. exact Mono. }
-    destruct (proj1 (find_level_fails_iff o _ 0 Mono') F) as [A|[A|(lo' & hi' & A & N)]]; [lia | congruence |].
-    rewrite Hb in A. injection A as <- <-. specialize (N l Hl). lia.
-  - exfalso. exact (find_level_no_fuel o _ 0 F).
+  intros (Hn & lo & hi & l & Hb & Hm & Mono & Hl & Fit & Low & E1 & E2). unfold log_rn.
+  assert (E0 : Qeqb mn mx = false) by (destruct (Qeqb mn mx) eqn:E; [gb_bool; contradiction | reflexivity]).
+  rewrite E0, log_search_eq.
+  rewrite (TicksNice.find_level_is_lowest o _ 0 lo hi l Hb Mono Hm Hl Fit Low).
+  unfold log_nice_rep_b, log_first_last. now rewrite E1, E2.
 Qed.
 
 (* 45 on a Log scale: the new ends lie within one ratio of neighbouring major ticks of the old ones *)
@@ -315,8 +319,8 @@ Proof.
   destruct (rev (t0 :: t1 :: r)) as [|u1 [|u0 r']]; try discriminate.
   apply andb_prop in H. destruct H as [H1 H2]. apply Qleb_true in H1, H2. exists t0, t1, r, u1, u0, r'. auto.
 Qed.
-Lemma log_l45_sound nomax found mn mx ao bo major3 : log_l45 nomax found mn mx ao bo major3 = true ->
-  (3 <= nomax)%Z -> found = true -> log_law45_spec (lf_neg mn mx) (lf_emin mn mx) (lf_emax mn mx) (lf_emin ao bo) (lf_emax ao bo) major3.
+Lemma log_l45_sound nomax rep mn mx ao bo major3 : log_l45 nomax rep mn mx ao bo major3 = true ->
+  (3 <= nomax)%Z -> rep = true -> log_law45_spec (lf_neg mn mx) (lf_emin mn mx) (lf_emax mn mx) (lf_emin ao bo) (lf_emax ao bo) major3.
 Proof.
   unfold log_l45. intros H Hm ->. apply Bool.orb_true_iff in H. destruct H as [H|H]; [|now apply log_law45_sound].
   apply Bool.orb_true_iff in H. destruct H as [H|H]; [apply Z.ltb_lt in H; lia | discriminate].
@@ -354,12 +358,12 @@ Definition log_case_gen (G : bool -> bool -> Prop -> Prop) (Lw : bool -> Prop ->
   Lw bl ((3 <= o_max no)%Z -> so_nst2 ob = 0%Z /\ exists a2 b2, so_nmin2 ob = XFin a2 /\ so_nmax2 ob = XFin b2 /\
            Qabs (a2 - ao) <= tolv ao /\ Qabs (b2 - bo) <= tolv bo) /\
   (* 41 *)
-  Lw bl ((3 <= o_max no)%Z -> log_nice_fits base no mn mx -> exists f rest t0 tl, so_major3 ob = f :: rest /\ f = XFin t0 /\
+  Lw bl ((3 <= o_max no)%Z -> log_nice_rep_spec base no mn mx -> exists f rest t0 tl, so_major3 ob = f :: rest /\ f = XFin t0 /\
            last (so_major3 ob) f = XFin tl /\ Qabs (t0 - ao) <= tolv ao /\ Qabs (tl - bo) <= tolv bo) /\
   (* 43 *)
   (~ ao == bo -> exists p q, so_map0 ob = XFin p /\ so_map1 ob = XFin q /\ Qabs p <= e12 /\ Qabs (q - 1) <= e12) /\
   (* 45 *)
-  Lw bl ((3 <= o_max no)%Z -> log_nice_fits base no mn mx ->
+  Lw bl ((3 <= o_max no)%Z -> log_nice_rep_spec base no mn mx ->
          log_law45_spec (lf_neg mn mx) (lf_emin mn mx) (lf_emax mn mx) (lf_emin ao bo) (lf_emax ao bo) (so_major3 ob)).
 
 Definition log_case_ok (c : sccase) : Prop := log_case_gen G_exact L_exact c.
@@ -387,9 +391,9 @@ Proof.
   - eapply HG; [exact K36|]. now apply log_ticks_E_sound.
   - eapply HG; [exact K37|]. now apply log_nice_E_sound.
   - eapply HL; [exact K40|]. intros E Hm. now apply (law40_sound _ _ _ _ _ _ _ E).
-  - eapply HL; [exact K41|]. intros E Hm Hf. apply (law41_sound _ _ _ _ _ _ E Hm). now apply log_found_of_fits.
+  - eapply HL; [exact K41|]. intros E Hm Hf. apply (law41_sound _ _ _ _ _ _ E Hm). now apply log_rep_of_spec.
   - intro Hn. now apply (law43_sound _ _ _ _ K43).
-  - eapply HL; [exact K45|]. intros E Hm Hf. apply (log_l45_sound _ _ _ _ _ _ _ E Hm). now apply log_found_of_fits.
+  - eapply HL; [exact K45|]. intros E Hm Hf. apply (log_l45_sound _ _ _ _ _ _ _ E Hm). now apply log_rep_of_spec.
 Qed.
 
 Theorem judge_log_sound c cd t p d : judge_log c = verdict cd t p d -> cd = 0%Z \/ cd = 1%Z ->
